@@ -82,6 +82,37 @@ class ClauseTable:
         return sorted(self.id_of(s) for s in sorted(req.specifier, key=str))
 
 
+# ---------------------------------------------------------------------------------------------------------
+# Facts about a requirement computed by the harness itself (from the wording of the properties and packaging's
+# objects), NOT by asking the code under test: a seeded change to req_compile.utils.is_pinned_requirement went
+# unseen as long as model and oracle were fed the code's own answer.
+# ---------------------------------------------------------------------------------------------------------
+
+def pins_exactly(req):
+    """the requirement pins a version exactly: an == / === clause that is not a `.*` wildcard"""
+    return any(sp.operator in ("==", "===") and not sp.version.endswith(".*") for sp in req.specifier)
+
+
+def names_prerelease(req):
+    """some clause of the requirement names a pre-release version"""
+    from packaging.version import Version, InvalidVersion
+    for sp in req.specifier:
+        try:
+            if Version(sp.version[:-2] if sp.version.endswith(".*") else sp.version).is_prerelease:
+                return True
+        except InvalidVersion:
+            pass
+    return False
+
+
+def applies_under(req, extra):
+    """does a requirement of a distribution apply when the distribution is taken plain (extra None) / with `extra`:
+    unmarked requirements belong to the plain view only; a marked one applies where its marker holds"""
+    if req.marker is None:
+        return not extra
+    return bool(req.marker.evaluate({"extra": extra or ""}))
+
+
 def marker_activity(req, extras):
     """(actNone, actFor) as req_uses_extra would evaluate them."""
     if not req.marker:
